@@ -3,50 +3,29 @@
    library aborts in a detached tree, attached to the root); whole scripts by induction. *)
 From Coq Require Import ZArith List Bool PArith FMapPositive Lia.
 From Tickit Require Import LifeDefs LifeLemmas LifeChains LifeInv LifePure LifeWalks LifeRelink LifeRemove LifeClose
-  LifeQueue LifeDestroy LifeAttach LifeOps LifeFlush.
+  LifeQueue LifeDestroy LifeAttach LifeOps LifeFlush LifeUnfold.
 Import ListNotations.
 Local Open Scope Z_scope.
 
+(* the calls that dispatch no event (take_focus, flush, set_geometry, reposition run FOCUS / EXPOSE / GEOMCHANGE
+   handlers: they belong to LifeEvents.v) *)
 Definition event_free_op (o : op) : bool :=
-  match o with OKey | OMouse _ | OFrameRef _ | OFrameUnref _ => false | _ => true end.
+  match o with
+  | OKey | OMouse _ | OResize | OFrameRef _ | OFrameUnref _ | OFocus _ | OFlush _ | OGeom _ | OMove _ => false
+  | _ => true
+  end.
 
 (* what a call needs of the heap it is made on *)
 Definition op_pre (h : heap) (o : op) : Prop :=
   match o with
   | ONew p _ _ _ _ => findw h p <> None
-  | ORef w | OUnref w | OClose w | OSteal w _ | OBind w _ _ _ _ _ | OUnbind w _ | OGeom w | OShow w | OHide w | OExpose w => findw h w <> None
+  | ORef w | OUnref w | OClose w | OSteal w _ | ONotify w _ | OBind w _ _ _ _ _ | OUnbind w _ | OShow w | OHide w | OExpose w => findw h w <> None
   | ORestack c w => is_restack c = true /\ exists cw, findw h w = Some cw /\ (w_parent cw = None \/ anc h w root)
-  | OFocus w | OGetRoot w => anc h w root
-  | OFlush w => w = root /\ findw h root <> None
-  | OKey | OMouse _ | OFrameRef _ | OFrameUnref _ => False
+  | OGetRoot w => anc h w root
+  | OTouch w j walk => findw h w <> None /\ (forall a, j = Some a -> findw h a <> None) /\ (walk = true -> anc h w root)
+  | OKey | OMouse _ | OResize | OFrameRef _ | OFrameUnref _ | OFocus _ | OFlush _ | OGeom _ | OMove _ => False
   | ONop => True
   end.
-
-Lemma run_op_S : forall V f o,
-  run_op V (S f) o =
-  ((match o with ONop | OFrameRef _ | OFrameUnref _ => ret tt | _ => log_op o end) ;;;
-   match o with
-   | ONew p hid low rp st => window_new f p hid low rp st ;;; ret tt
-   | ORef w => window_ref w
-   | OUnref w => unref V f w
-   | OClose w => close V f w
-   | ORestack ch w => request_change f ch w
-   | OShow w => window_show f w
-   | OHide w => window_hide f w
-   | OFocus w => focus_gained f w None
-   | OSteal w b => upd w (fun c => set_steal c b)
-   | OExpose w => expose f w
-   | OGetRoot w => get_root f w ;;; ret tt
-   | OFlush w => window_flush f w
-   | OKey => b <- root_bound ;; if b then handle_key V f 1%positive ;;; ret tt else ret tt
-   | OMouse t => b <- root_bound ;; if b then on_term_mouse V f t else ret tt
-   | OBind w id k m r acts => upd w (fun c => set_hs c (w_hs c ++ [mkH id k m r acts]))
-   | OUnbind w id => upd w (fun c => set_hs c (filter (fun hd => negb (h_id hd =? id)) (w_hs c)))
-   | OGeom w => getw w ;;; ret tt
-   | ONop => ret tt
-   | OFrameRef _ | OFrameUnref _ => ret tt
-   end).
-Proof. reflexivity. Qed.
 
 Lemma hinv_log : forall D h o,
   hinv D h -> hinv D (mkHeap (wins h) (reqs h) (rx h) (nextw h) (nextq h) (dlog h) (uninit_seen h) (o :: tr h)).
@@ -66,7 +45,7 @@ Theorem run_op_ok : forall fuel o h,
   end.
 Proof.
   intros fuel o h HI Hef Hpre. destruct fuel as [|f]; [cbn; exact I|].
-  rewrite run_op_S. unfold bind at 1.
+  rewrite run_op_F. unfold bind at 1.
   (* the call is logged first *)
   assert (Hlog : exists h1, (match o with ONop | OFrameRef _ | OFrameUnref _ => ret tt | _ => log_op o end) h = Ok tt h1 /\ hinv [] h1 /\
                             (forall a, findw h1 a = findw h a) /\ (forall x b, anc h x b -> anc h1 x b)).
@@ -105,10 +84,6 @@ Proof.
   - (* OHide *)
     rewrite <- Fw1 in Hpre. pose proof (window_hide_spec [] f w h1 HI1 Hpre h1 eq_refl) as Hs.
     destruct (window_hide f w h1); tauto.
-  - (* OFocus *)
-    pose proof (focus_gained_spec f w None h1 HI1 (Hanc1 _ _ Hpre)) as Hfg.
-    assert (Hch : forall ch, None = Some ch -> exists cch, findw h1 ch = Some cch /\ w_parent cch = Some w) by (intros ch Ec; discriminate).
-    specialize (Hfg Hch h1 eq_refl). destruct (focus_gained f w None h1); tauto.
   - (* OSteal *)
     rewrite <- Fw1 in Hpre.
     pose proof (upd_links_spec [] w (fun c => set_steal c b) h1 HI1 Hpre) as Hu.
@@ -121,16 +96,11 @@ Proof.
   - (* OGetRoot *)
     unfold bind at 1. pose proof (get_root_spec [] f w h1 (conj HI1 (Hanc1 _ _ Hpre))) as Hg.
     destruct (get_root f w h1) as [r h2| |]; [|contradiction|exact I]. destruct Hg as [Eh _]. subst h2. cbn. exact HI1.
-  - (* OFlush *)
-    destruct Hpre as [Ew Hl]. subst w.
-    assert (Hl1 : findw h1 root <> None) by (rewrite Fw1; exact Hl).
-    pose proof (window_flush_spec f h1 HI1 Hl1 h1 eq_refl) as Hfl.
-    destruct (window_flush f root h1); tauto.
   - (* OBind *)
     rewrite <- Fw1 in Hpre.
-    pose proof (upd_links_spec [] w (fun c => set_hs c (w_hs c ++ [mkH id key mask ret actions])) h1 HI1 Hpre) as Hu.
-    assert (Hf : forall c, same_links c (set_hs c (w_hs c ++ [mkH id key mask ret actions])) /\
-                           w_ref c <= w_ref (set_hs c (w_hs c ++ [mkH id key mask ret actions]))).
+    pose proof (upd_links_spec [] w (fun c => set_hs c (w_hs c ++ [mkH id kind mask ret actions])) h1 HI1 Hpre) as Hu.
+    assert (Hf : forall c, same_links c (set_hs c (w_hs c ++ [mkH id kind mask ret actions])) /\
+                           w_ref c <= w_ref (set_hs c (w_hs c ++ [mkH id kind mask ret actions]))).
     { intro c. split; [repeat split|cbn; lia]. }
     specialize (Hu Hf h1 eq_refl). destruct (upd w _ h1); tauto.
   - (* OUnbind *)
@@ -140,9 +110,21 @@ Proof.
                            w_ref c <= w_ref (set_hs c (filter (fun hd => negb (h_id hd =? id)) (w_hs c)))).
     { intro c. split; [repeat split|cbn; lia]. }
     specialize (Hu Hf h1 eq_refl). destruct (upd w _ h1); tauto.
-  - (* OGeom *)
-    rewrite <- Fw1 in Hpre. destruct (live_some h1 w Hpre) as [cw Hw].
-    unfold bind. rewrite (getw_run h1 w cw Hw). cbn. exact HI1.
+  - (* OTouch *)
+    destruct Hpre as [Hpw [Hpj Hpa]]. rewrite <- Fw1 in Hpw. destruct (live_some h1 w Hpw) as [cw Hw].
+    unfold bind at 1. rewrite (getw_run h1 w cw Hw). unfold bind at 1.
+    assert (Hj : (match j with Some a => getw a ;;; ret tt | None => ret tt end) h1 = Ok tt h1).
+    { destruct j as [a|]; [|reflexivity]. pose proof (Hpj a eq_refl) as Hla. rewrite <- Fw1 in Hla.
+      destruct (live_some h1 a Hla) as [ca Ha]. unfold bind. rewrite (getw_run h1 a ca Ha). reflexivity. }
+    rewrite Hj. destruct walk; [|cbn; exact HI1].
+    pose proof (scrollrect_spec [] f w h1 h1 (conj eq_refl (conj HI1 (Hanc1 _ _ (Hpa eq_refl))))) as Hs.
+    destruct (scrollrect f w h1) as [u h2| |]; [|contradiction|exact I]. eapply hinv_rx_only; eauto.
+  - (* ONotify *)
+    rewrite <- Fw1 in Hpre.
+    pose proof (upd_links_spec [] w (fun c => set_fcn c b) h1 HI1 Hpre) as Hu.
+    assert (Hf : forall c, same_links c (set_fcn c b) /\ w_ref c <= w_ref (set_fcn c b)).
+    { intro c. split; [repeat split|cbn; lia]. }
+    specialize (Hu Hf h1 eq_refl). destruct (upd w _ h1); tauto.
   - (* ONop *)
     cbn. exact HI1.
 Qed.
@@ -358,16 +340,16 @@ Definition depth_fuel (h : heap) : nat := Pos.to_nat (nextw h).
 Definition op_preb (h : heap) (o : op) : bool :=
   match o with
   | ONew p _ _ _ _ => liveb h p
-  | ORef w | OUnref w | OClose w | OSteal w _ | OBind w _ _ _ _ _ | OUnbind w _ | OGeom w | OShow w | OHide w | OExpose w => liveb h w
+  | ORef w | OUnref w | OClose w | OSteal w _ | ONotify w _ | OBind w _ _ _ _ _ | OUnbind w _ | OShow w | OHide w | OExpose w => liveb h w
   | ORestack c w =>
     is_restack c &&
     match PM.find w (wins h) with
     | Some cw => match w_parent cw with None => true | Some _ => intreeb (depth_fuel h) h w end
     | None => false
     end
-  | OFocus w | OGetRoot w => intreeb (depth_fuel h) h w
-  | OFlush w => Pos.eqb w root && liveb h root
-  | OKey | OMouse _ | OFrameRef _ | OFrameUnref _ => false
+  | OGetRoot w => intreeb (depth_fuel h) h w
+  | OTouch w j walk => liveb h w && (match j with Some a => liveb h a | None => true end) && (negb walk || intreeb (depth_fuel h) h w)
+  | OKey | OMouse _ | OResize | OFrameRef _ | OFrameUnref _ | OFocus _ | OFlush _ | OGeom _ | OMove _ => false
   | ONop => true
   end.
 
@@ -378,8 +360,10 @@ Proof.
     destruct (PM.find w (wins h)) as [cw|] eqn:Hf; [|discriminate]. exists cw. split; [exact Hf|].
     destruct (w_parent cw); [right; eapply intreeb_anc; eauto|left; reflexivity].
   - eapply intreeb_anc; eauto.
-  - eapply intreeb_anc; eauto.
-  - apply andb_prop in H. destruct H as [H1 H2]. apply Pos.eqb_eq in H1. split; [exact H1|apply liveb_live; exact H2].
+  - apply andb_prop in H. destruct H as [H12 H3]. apply andb_prop in H12. destruct H12 as [H1 H2].
+    split; [apply liveb_live; exact H1|]. split.
+    + intros a Ea. subst j. apply liveb_live. exact H2.
+    + intro Ew. subst walk. cbn in H3. eapply intreeb_anc; eauto.
 Qed.
 
 Fixpoint client_okb (fuel : nat) (l : list op) (h : heap) : bool :=
